@@ -29,7 +29,7 @@ class CIGAR(list):
     Returns:
       CIGAR: the complement CIGAR
     """
-    comp = list(reversed(self))
+    comp = [CIGAR.Operation(op.length, op.code) for op in reversed(self)]
     for op in comp:
       if   op.code == "I": op.code = "D"
       elif op.code == "S": op.code = "D"
